@@ -1,7 +1,7 @@
 #!/bin/bash
 # like canaries.sh, but each fix is reverted in its own scratch worktree (VERIF_REPO), several at a time; /repo untouched.
-# usage: tools/canaries_scratch.sh [tier] [parallel]
-TIER=${1:-quick}; PAR=${2:-3}
+# usage: tools/canaries_scratch.sh [tier] [parallel] [regex over '<commit> <property>' lines, default all]
+TIER=${1:-quick}; PAR=${2:-3}; FILTER=${3:-.}
 cd /verif
 python3 - <<'PY' > /tmp/canary_list.txt
 import json,re
@@ -33,5 +33,5 @@ one() {
   git -C /repo worktree remove --force "$W/wt" 2>/dev/null; rm -rf "$W"
 }
 export -f one; export TIER
-xargs -P $PAR -L1 bash -c 'one $0 $1' < /tmp/canary_list.txt
+grep -E "$FILTER" /tmp/canary_list.txt | xargs -P $PAR -L1 bash -c 'one $0 $1'
 rm -f /tmp/canary_list.txt
